@@ -9,6 +9,7 @@
 //!       1 VolatileSlice over a FAKE range [A, n] (unsafe new, never dereferenced; geometry ops only)
 //!       2 GuestRegionMmap [guest base, n]     3 GuestMemoryMmap [s1,l1,...]     4 MockMem [s1,l1,...]
 //!       5 AtomicBitmap [byte_size, page_size]  6 GuestAddress []
+//!       7 AtomicBitmap::new(byte_size, page_size) then enlarge(k)  [byte_size, page_size, k]  (byte_size + k < 2^64)
 //!   ty 0..3 = u8 u16 u32 u64;  op codes: see coq/Suite/C07.v.
 //! A case that does not return within 5 s kills the process (exit 97): the runner reports the last
 //! announced case as a crash.
@@ -455,6 +456,21 @@ fn exec_inner(case: &[Tok]) -> u64 {
             let bm = AtomicBitmap::new(bs as usize, NonZeroUsize::new(ps as usize).unwrap());
             bitmap_op(&bm, op, a as usize, b as usize, c as usize)
         }
+        7 => {
+            let (bs, ps, k) = (par[0] as u64, par[1] as u64, par[2] as u64);
+            assert!(par.len() == 3 && ps >= 1 && bs.checked_add(k).is_some());
+            assert!((bs as u128).div_ceil(ps as u128) <= 4096 && ((bs + k) as u128).div_ceil(ps as u128) <= 4096);
+            // creating and enlarging is part of the case: a panic there is class 2 as well
+            let made = util::catch(|| {
+                let mut bm = AtomicBitmap::new(bs as usize, NonZeroUsize::new(ps as usize).unwrap());
+                bm.enlarge(k as usize);
+                bm
+            });
+            match made {
+                Some(bm) => bitmap_op(&bm, op, a as usize, b as usize, c as usize),
+                None => 2,
+            }
+        }
         6 => {
             assert!(op == 60);
             obs(|| co(GuestAddress(a).checked_align_up(b)))
@@ -726,6 +742,54 @@ fn gen(rng: &mut Rng, tier: Tier, emit: &mut dyn FnMut(Vec<Tok>)) {
             }
         }
     }
+    // (d') bitmaps that were ENLARGED: byte sizes before / after around multiples of 64 pages, with and without a
+    // partial last page; the word vector must be sized from the rounded-up page count, so every request that
+    // touches the last page (or runs over the whole range) must return
+    for &ps in &[1u64, 3, 4096] {
+        for &p0 in &[0u64, 1, 64, 65] {
+            for &j in &[1u64, 2, 3, 63] {
+                let mut fs = vec![0u64, 1, ps, ps + 1];
+                if ps > 1 {
+                    fs.push(ps - 1);
+                    fs.push(ps / 2);
+                }
+                fs.sort();
+                fs.dedup();
+                for &f in &fs {
+                    let total = 64 * j * ps + f;
+                    for &bsz in &[p0 * ps, (p0 * ps).saturating_sub(1), p0 * ps + ps / 2] {
+                        if bsz > total {
+                            continue;
+                        }
+                        let k = total - bsz;
+                        let par = [bsz, ps, k];
+                        let pages = ((total as u128 + ps as u128 - 1) / ps as u128) as u64;
+                        if pages > 4096 {
+                            continue;
+                        }
+                        let lastp = pages.wrapping_sub(1);
+                        for op in [52u64, 53, 54] {
+                            g.put(7, &par, op, 0, lastp, 0, 0, &[]);
+                            g.bulk(7, &par, op, 0, pages, 0, 0, &[]);
+                            g.bulk(7, &par, op, 0, 64 * j, 0, 0, &[]);
+                            g.bulk(7, &par, op, 0, (64 * j).wrapping_sub(1), 0, 0, &[]);
+                        }
+                        g.put(7, &par, 55, 0, total.wrapping_sub(1), 0, 0, &[]);
+                        g.put(7, &par, 57, 0, total.wrapping_sub(1), 0, 0, &[]);
+                        g.bulk(7, &par, 58, 0, lastp.wrapping_mul(ps), 0, 0, &[]);
+                        for op in [50u64, 51, 56] {
+                            g.put(7, &par, op, 0, total.wrapping_sub(1), 1, 0, &[]);
+                            g.put(7, &par, op, 0, 0, TOP, 0, &[]);
+                            g.bulk(7, &par, op, 0, lastp.wrapping_mul(ps), 1, 0, &[]);
+                            g.bulk(7, &par, op, 0, 0, total, 0, &[]);
+                            g.bulk(7, &par, op, 0, bsz, k, 0, &[]);
+                            g.bulk(7, &par, op, 0, TOP, TOP, 0, &[]);
+                        }
+                    }
+                }
+            }
+        }
+    }
     // (f) checked_align_up: powers of two return, everything else is the documented panic
     for &a in &util::boundary_u64(0x1234_5678_9abc_def0) {
         for k in 0..64u32 {
@@ -749,7 +813,23 @@ fn gen(rng: &mut Rng, tier: Tier, emit: &mut dyn FnMut(Vec<Tok>)) {
                 }
             }
         };
-        match rng.below(5) {
+        match rng.below(6) {
+            5 => {
+                // an enlarged bitmap: random sizes around the 64-page multiples
+                let ps = *rng.pick(&[1u64, 7, 4096]);
+                let total = 64 * rng.range(1, 8) * ps + *rng.pick(&[0u64, 1, ps - 1, ps / 2, ps + 1]);
+                let bsz = rng.below(total + 1);
+                let par = [bsz, ps, total - bsz];
+                let pages = (total + ps - 1) / ps;
+                let op = 50 + rng.below(9);
+                let a = match rng.below(4) {
+                    0 => pages.wrapping_sub(1),
+                    1 => total.wrapping_sub(rng.below(3)),
+                    2 => pick(rng, total, 0),
+                    _ => pages.wrapping_sub(1).wrapping_mul(ps),
+                };
+                g.put(7, &par, op, 0, a, pick(rng, total, 0), pick(rng, total, 0), &[]);
+            }
             0 => {
                 let par = *rng.pick(&slice_pars);
                 let op = rng.below(25);
